@@ -97,13 +97,35 @@ def gen_error_codes(defs):
 
 STUBS = {
     'error_codes': 'pub fn run() { eprintln!("not generated"); std::process::exit(2); }\n',
-    'value_types': 'pub fn run(_args: &[String]) { eprintln!("not generated"); std::process::exit(2); }\npub fn run_resolver() { eprintln!("not generated"); std::process::exit(2); }\npub fn run_lint() { eprintln!("not generated"); std::process::exit(2); }\n',
+    'value_types': 'pub fn run(_args: &[String]) { eprintln!("not generated"); std::process::exit(2); }\npub fn run_resolver() { eprintln!("not generated"); std::process::exit(2); }\npub fn run_lint() { eprintln!("not generated"); std::process::exit(2); }\npub fn run_containers() { eprintln!("not generated"); std::process::exit(2); }\n',
 }
 
 
+def _default_value_types():
+    """The value_types module as every check generates it (from /repo's current ValueType definition)."""
+    import sys
+    for d in ('mir', 'checks'):
+        q = os.path.join(VERIF, d)
+        if q not in sys.path:
+            sys.path.insert(0, q)
+    import vtlib
+    import vtcheck
+    from rustdefs import RustDefs
+    defs = RustDefs(os.path.join(REPO, 'src'))
+    edef = defs.find_enum('alpha::value_type::ValueType')
+    if edef is None:
+        raise Inconclusive('enum ValueType not found in src/alpha/value_type.rs')
+    kinds = vtlib.field_kinds(edef)
+    vtlib.init_names(edef)
+    return vtlib.gen_value_types_rs(edef, list(vtcheck.PUB_UNARY), list(vtcheck.PUB_BINARY), kinds)
+
+
 def write_generated(mods):
-    """mods: name -> source text.  Missing modules get stubs so the crate always builds."""
+    """mods: name -> source text.  value_types is regenerated from the current sources whenever it is not supplied (a file
+    left behind by an older generator must never decide whether the crate builds); other missing modules get stubs."""
     os.makedirs(GEN_DIR, exist_ok=True)
+    if 'value_types' not in mods:
+        mods = dict(mods, value_types=_default_value_types())
     names = sorted(set(STUBS) | set(mods))
     for n in names:
         p = os.path.join(GEN_DIR, n + '.rs')
